@@ -2032,7 +2032,6 @@ func limitPairs(p *Prog, pk *packages.Package, fd *ast.FuncDecl, idEnv map[types
 	return out
 }
 
-
 // sitesExclusive: the sites stand in one frame, each pair in opposite branches of an if/else (no path passes two).
 func sitesExclusive(l []inlSite) bool {
 	if len(l) < 2 {
